@@ -91,6 +91,16 @@ def implications(fn, c, label):
     if not c:
         return []
     nd = fn.n(c)
+    if nd['c'] == 'DeclRefExpr' and nd.get('dk') in ('local', 'static_local'):
+        # a boolean flag with a single definition (`const bool has_item = !(it == end)`) stands for its initialiser, provided the
+        # compared iterator is not modified between the definition and the test (checked by the caller's kill sets: the fact is
+        # attached to the tested variable, and any later write to it kills the fact)
+        init = fn.single_def(nd['d'])
+        if init:
+            imp = implications(fn, init, label)
+            if imp and not _stale_between(fn, init, c, imp):
+                return imp
+        return []
     if nd['c'] == 'UnaryOperator' and nd['op'] == '!':
         return implications(fn, nd['ch'][0], not label)
     if nd['c'] == 'BinaryOperator' and nd['op'] == '&&':
@@ -106,6 +116,23 @@ def implications(fn, c, label):
         x, eq_on_true = ec
         return [(x, label == eq_on_true)]
     return []
+
+
+def _stale_between(fn, def_node, test_node, imp):
+    """is one of the compared iterators written on a path from the flag's definition to the test of the flag?"""
+    import iterinv
+    g = graph(fn)
+    roots = set()
+    for (x, _) in imp:
+        r = _root(x)
+        if r and r[0] in ('local', 'param') and len(r) >= 2:
+            roots.add(r[1])
+    for vid, d in fn.defs.items():
+        if d.get('name') in roots:
+            for w in d.get('writes', []):
+                if iterinv._after(fn, g, def_node, w) and iterinv._after(fn, g, w, test_node):
+                    return True
+    return False
 
 
 def _has_end_cmp(fn, c):
